@@ -1,11 +1,13 @@
 CONSTANT Tree <- StdTree4
-CONSTANT Families = {"machine", "loc", "allfib", "append", "long"}
+CONSTANT Families = {"machine", "loc", "allfib", "append", "long", "runs"}
 CONSTANT MaxLen = 3
 CONSTANT LocLen = 1
 CONSTANT Fibs = {1, 2, 3}
 CONSTANT AppMax = 3
 CONSTANT LongLens = {17, 23, 32, 40}
 CONSTANT LongSeeds = {1, 2, 3}
+CONSTANT RunLens = {2, 3, 4, 5, 8, 9, 12, 17, 24}
+CONSTANT RunSeeds = {1, 2}
 INIT Init
 NEXT Next
 INVARIANT TypeOK
@@ -18,6 +20,7 @@ INVARIANT C16_MatchesSpecified
 INVARIANT C16_ConvIndependent
 INVARIANT C16_MemIndependent
 INVARIANT C16_IndexBookkeeping
+INVARIANT C16_RunsAreBlocks
 INVARIANT C16_AppendShape
 INVARIANT C16_AppendNoOverlap
 INVARIANT C16_AppendNothingLost
